@@ -72,6 +72,10 @@ type provider struct {
 	disposables   []Disposable
 	disposablesMu sync.Mutex
 
+	// disposablesDrained is set (under disposablesMu) once Close has taken the list:
+	// an instance that arrives later is disposed by whoever stores it
+	disposablesDrained bool
+
 	// Root scope for provider-level resolution
 	rootScope *scope
 
@@ -242,6 +246,7 @@ func (p *provider) Close() error {
 	p.disposablesMu.Lock()
 	disposables := p.disposables
 	p.disposables = nil
+	p.disposablesDrained = true
 	p.disposablesMu.Unlock()
 
 	// Dispose in reverse order of creation
@@ -294,7 +299,16 @@ func (p *provider) setSingleton(key instanceKey, instance any) {
 
 	// Track if disposable
 	if d, ok := instance.(Disposable); ok {
+		// The disposed flag is read under the disposal lock: either Close has not
+		// drained the list yet and will dispose this instance, or the provider is
+		// already closed (a constructor closed it during Build) and the instance is
+		// disposed here.
 		p.disposablesMu.Lock()
+		if atomic.LoadInt32(&p.disposed) != 0 && p.disposablesDrained {
+			p.disposablesMu.Unlock()
+			_ = d.Close()
+			return
+		}
 		p.disposables = append(p.disposables, d)
 		p.disposablesMu.Unlock()
 	}
